@@ -139,8 +139,11 @@ func (a *ArrayAccess) String() string {
 
 // ObjectLiteral represents an object literal in the source code.
 type ObjectLiteral struct {
-	Properties map[string]Expr
-	Keys       []string // property names in source order (a Go map has no order)
+	Properties map[string]Expr // name -> initialiser (the last one if a name is repeated)
+	// Keys and Values list every `name: initialiser` pair in source order (a Go map
+	// has no order); a repeated name appears once per occurrence.
+	Keys   []string
+	Values []Expr
 }
 
 func (o *ObjectLiteral) String() string {
@@ -149,7 +152,7 @@ func (o *ObjectLiteral) String() string {
 		if i > 0 {
 			val += ", "
 		}
-		val += fmt.Sprintf("%s: %s", key, o.Properties[key].String())
+		val += fmt.Sprintf("%s: %s", key, o.Values[i].String())
 	}
 	val += "}"
 	return val
